@@ -108,7 +108,7 @@ def main():
         "setup_cmd": "./check.sh build",
         "hooks": {
             "guard": "verif (Go build tag)",
-            "enable": "check.sh builds the harness with `go build -tags verif -overlay <generated overlay.json>`; the overlay adds /verif/hooks/analyzer/zz_verif_reset.go (func VerifResetConfig, build tag verif) to package src/analyzer without writing anything into /repo; every check.sh invocation rebuilds against /repo's working tree. The harness is built twice: the hook variant (tag verif + overlay) runs C08, C09 and C10, which drive the process-wide configuration in-process; every other check runs from a build without the tag and without the overlay, so it does not depend on the hook file compiling.",
+            "enable": "check.sh builds the harness with `go build -tags verif -overlay <generated overlay.json>`; the overlay adds /verif/hooks/analyzer/zz_verif_reset.go (func VerifResetConfig, build tag verif) to package src/analyzer without writing anything into /repo; every check.sh invocation rebuilds against /repo's working tree. The harness is built twice: the hook variant (tag verif + overlay) runs C08, C09 and C10, which drive the process-wide configuration in-process; every other check runs from a build without the tag and without the overlay, so it does not depend on the hook file compiling. C11 uses a third build (tags verif verifsync): the same overlay additionally replaces src/analyzer/analyzer.go by a scratch copy, generated from the current tree at every run, whose import of package sync is redirected to /verif/hooks/verifsync (a cooperative stand-in for sync.Once/Mutex/RWMutex whose operations are scheduling points of the controlled scheduler; identical to package sync when no scheduler is installed), injected as the virtual package src/verifsync; if the tree does not build this way C11 runs on the plain build and reports that phase as not explored.",
             "baseline_off_cmd": "cd /repo && GOFLAGS=-mod=mod GOPROXY=off go test -json -vet=off -count=1 -timeout 25m ./...",
             "source_commits": [],
             "add_only": True,
